@@ -208,6 +208,15 @@ func runExtWorld(prefix string, w *World) (*core.Failure, string) {
 	if f := verify("first run"); f != nil {
 		return f, "ok"
 	}
+	// gopki can live with its own output: an immediate default rerun changes nothing (C10 over this input space)
+	snap := d.Clone()
+	resN := core.Run(d, core.FlagDefault)
+	if resN.Panic != "" {
+		return core.Failf(prefix+"/panic", "gopki panicked on the rerun: %s", resN.Panic), "panic"
+	}
+	if !resN.OK() || len(resN.Changes) != 0 || len(snap.Diff(d)) != 0 {
+		return core.Failf(prefix+"/rerun-not-noop", "a second default run right after generation is not a no-op: %s\n%v", resN.String(), w.Texts()), "failed"
+	}
 	// certificates that replace existing ones follow the same rules
 	res2 := core.Run(d, core.FlagAll)
 	if res2.Panic != "" {
